@@ -602,3 +602,8 @@ pub enum ParseErrorLevel {
     /// A very serious error that can cause continuous compiling issues, such as miss matched braces.
     Fatal,
 }
+
+// verification hooks (glass_easel_verif): compiled only under the cfg guard
+#[cfg(any(kani, glass_easel_verif))]
+#[path = "/verif/hooks/tc_parse.rs"]
+mod verif;
